@@ -714,7 +714,8 @@ def run_scan_buffer(ctx: Ctx) -> RuleResult:
             okk = False
             continue
         tdef = max(tdef, key=lambda a_: a_.lineno)
-        mg = find_pat([tdef.value.args[1]] if len(tdef.value.args) > 1 else [], '$m.group(0)')
+        targ_ = [tdef.value.args[1]] if len(tdef.value.args) > 1 else []
+        mg = find_pat(targ_, '$m.group(0)') or find_pat(targ_, '$m.group()') or find_pat(targ_, '$m[0]')
         if not mg:
             okk = False
             res.finding(x, tdef, 'the token carried by a delayed match is built from %s, not from the text of its own match (m.group(0)): where the '
